@@ -1,6 +1,9 @@
 package main
 
-import "fmt"
+import (
+	"fmt"
+	"path/filepath"
+)
 
 func init() {
 	runners["C05"] = runC05
@@ -35,6 +38,35 @@ func runC05(o *Out, rng *Rng, tier string, replay string) {
 		thAdd(o, s, s.limitClosures > 0 && s.closedKept > 0)
 	}
 	thFlush(o, "C05")
+	engineTripStream(o, rng, tier, "C05")
+}
+
+// engineTripStream: the trip rules as the daily update applies them to stored travellers - several
+// travellers whose records share a table iterator, promises on and off, close/reopen by travellers -
+// compared with the model under the property's projection of the stored trip history
+func engineTripStream(o *Out, rng *Rng, tier string, prop string) {
+	ne := 12
+	if tier == "thorough" {
+		ne = 120
+	} else if tier == "search" {
+		ne = 40
+	}
+	wd := filepath.Join(o.dir, "dbs")
+	for c := 0; c < ne; c++ {
+		r := rng.Fork()
+		cfg := engCfg{nTrav: r.Range(2, 9), days: r.Range(8, 30), promises: -1, samePrefix: true}
+		if c%4 == 3 {
+			cfg.multiThread = true
+		}
+		s := genEngine(r, wd, prop, cfg)
+		keepFails(o, s, prop)
+		o.CountN("engine_updates", s.stat["updates"])
+		o.CountN("engine_midtrip_after_update", s.stat["c05_midtrip_after_update"])
+		o.CountN("engine_trips_closed_by_update", s.stat["c05_trips_closed_by_update"])
+		o.AddCase(List(s.coq), s.stat["c05_trips_closed_by_update"] > 0 && s.stat["c05_midtrip_after_update"] > 0, s.ops)
+		s.close()
+	}
+	engFlush(o, prop+"E")
 }
 
 func runC07(o *Out, rng *Rng, tier string, replay string) {
@@ -57,4 +89,5 @@ func runC07(o *Out, rng *Rng, tier string, replay string) {
 		thAdd(o, s, (s.outOfOrder > 0 || s.ties > 0) && s.removes > 0 && (s.droppedOldest > 0 || s.refusedTooOld > 0 || s.ttePreserved > 0))
 	}
 	thFlush(o, "C07")
+	engineTripStream(o, rng, tier, "C07")
 }
